@@ -52,6 +52,7 @@ def parsePVal (t : String) : Option PVal :=
   | ["j", _, h] => (unH h).map .json
   | ["jbad"] => some .jsonFail
   | ["x", n] => n.toNat?.map .unsupported
+  | ["str", n, h] => do pure (.stringer (← n.toNat?) (← unH h))
   | _ => none
 
 def parseId (t : String) : Option IdVal :=
@@ -74,10 +75,50 @@ def coordI (b : UInt64) : Option Int :=
     if -(2^31 : Int) ≤ t ∧ t < (2^31 : Int) then some t else none
   | none => none
 
-def gvalI (v : GVal UInt64) : Option (GVal Int) :=
+/-- the float64 is an integer (no truncation happens in `int32(f)`) -/
+def isIntBits (b : UInt64) : Bool :=
+  match bitsToRat? b with
+  | some r => r.den == 1
+  | none => false
+
+def truncPt (p : Pt UInt64) : Pt Int := ⟨(coordI p.x).getD 0, (coordI p.y).getD 0⟩
+
+/-- Go `==` on two finite `orb.Point`s (−0 = +0) -/
+def ptEqF (a b : Pt UInt64) : Bool := bitsToRat? a.x == bitsToRat? b.x && bitsToRat? a.y == bitsToRat? b.y
+
+/-- `Ring.Closed()` as Go evaluates it: on the float64 points, before any truncation -/
+def closedF (r : List (Pt UInt64)) : Bool :=
+  decide (r.length ≥ 4) &&
+  match r.head?, r.getLast? with
+  | some a, some b => ptEqF a b
+  | _, _ => false
+
+/-- A ring for the integer model.  Go decides `Closed()` on the floats and encodes the
+    truncations (`encRingG (closedF r)`); the model decides it on the truncations.  They differ
+    only for a ring with fractional coordinates that is open but closes by truncation, and that one
+    is written like the truncated ring with its first vertex appended once more
+    (`encRingG_false_eq_reopen`). -/
+def ringI (r : List (Pt UInt64)) : List (Pt Int) :=
+  let t := r.map truncPt
+  if closed t && !closedF r then reopen t else t
+
+partial def geomI : Geom UInt64 → Geom Int
+  | .ring r => .ring (ringI r)
+  | .polygon p => .polygon (p.map ringI)
+  | .multiPolygon ps => .multiPolygon (ps.map (·.map ringI))
+  | .collection gs => .collection (gs.map geomI)
+  | g => mapGeom (fun c => (coordI c).getD 0) g
+
+/-- the geometry over `Int`, and whether some coordinate was fractional (then the input is
+    outside the quantifier: judged against the model only) -/
+def gvalI (v : GVal UInt64) : Option (GVal Int × Bool) :=
   let cs := match v with | .val g => coords g | _ => []
   if cs.all fun c => (coordI c).isSome then
-    some (mapGVal (fun c => (coordI c).getD 0) v)
+    let gi : GVal Int := match v with
+      | .nilIface => .nilIface
+      | .nilSlice k => .nilSlice k
+      | .val g => .val (geomI g)
+    some (gi, cs.any fun c => !isIntBits c)
   else none
 
 def strP : P String := fun ts =>
@@ -106,13 +147,15 @@ def layerP : P (String × Nat × Nat × List (IdVal × GVal UInt64 × List (Stri
   let (fs, ts) ← counted featureP ts
   pure ((name, v, e, fs), ts)
 
+/-- the layers over `Int`, and whether some coordinate was fractional -/
 def toLayers (raw : List (String × Nat × Nat × List (IdVal × GVal UInt64 × List (String × PVal)))) :
-    Option (List Layer) :=
-  raw.mapM fun (name, v, e, fs) => do
+    Option (List Layer × Bool) := do
+  let ls ← raw.mapM fun (name, v, e, fs) => do
     let fs ← fs.mapM fun (id, g, ps) => do
-      let gi ← gvalI g
-      pure ({ id := id, geom := gi, props := ps } : Feature)
-    pure ({ name := name, version := v, extent := e, features := fs } : Layer)
+      let (gi, fr) ← gvalI g
+      pure (({ id := id, geom := gi, props := ps } : Feature), fr)
+    pure (({ name := name, version := v, extent := e, features := fs.map (·.1) } : Layer), fs.any (·.2))
+  pure (ls.map (·.1), ls.any (·.2))
 
 /-! ### printing -/
 
@@ -167,7 +210,7 @@ def sortProps (m : List (String × DVal)) : List (String × DVal) :=
     ins acc) []
 
 def showDFeature (f : DFeature) : String :=
-  join ([match f.id with | some n => floatToHex (Float.ofNat n) | none => "-", showGeom (geomBits f.geom),
+  join ([match f.id with | some n => natToHex (idFloat n).toNat 16 | none => "-", showGeom (geomBits f.geom),
     toString f.props.length] ++ (sortProps f.props).map fun p => toH p.1 ++ " " ++ showDVal p.2)
 
 def showDLayer (l : DLayer) : String :=
@@ -195,6 +238,24 @@ def splitSemi (ts : Toks) : List Toks :=
 
 /-! ### round trip -/
 
+/-- the members of a collection with nested collections flattened -/
+partial def leaves : Geom Int → List (Geom Int)
+  | .collection gs => gs.flatMap leaves
+  | g => [g]
+
+def isColl : Geom Int → Bool
+  | .collection _ => true
+  | _ => false
+
+/-- The specification side of a collection: "every member becomes its own feature" — a member
+    that is itself a collection stands for its members (MVT has no collection type). -/
+def flatGVal : GVal Int → GVal Int
+  | .val (.collection gs) => .val (.collection (gs.flatMap leaves))
+  | v => v
+
+def specLayers (ls : List Layer) : List Layer :=
+  ls.map fun l => { l with features := l.features.map fun f => { f with geom := flatGVal f.geom } }
+
 def geomsOf (ls : List Layer) : List (Geom Int) :=
   ls.flatMap fun l => l.features.flatMap fun f =>
     match gvalGeom f.geom with
@@ -202,10 +263,12 @@ def geomsOf (ls : List Layer) : List (Geom Int) :=
     | some g => [g]
     | none => []
 
+/-- a collection that is not exactly one non-collection member (the class of the known finding
+    collection-members: 0 members, ≥ 2 members, or a nested collection) -/
 def hasMultiColl (ls : List Layer) : Bool :=
   ls.any fun l => l.features.any fun f =>
     match gvalGeom f.geom with
-    | some (.collection gs) => gs.length != 1
+    | some (.collection gs) => gs.length != 1 || gs.any isColl
     | _ => false
 
 def hasSingleColl (ls : List Layer) : Bool :=
@@ -214,22 +277,50 @@ def hasSingleColl (ls : List Layer) : Bool :=
     | some (.collection gs) => gs.length == 1
     | _ => false
 
-def isPosZero : PVal → Bool
-  | .f64 b => b == 0
-  | .f32 b => b == 0
-  | _ => false
+/-- `oriAgree oriFloat`, decided: the float64 shoelace gives the exact sign on every ring of the input -/
+def oriAgreeB (ls : List Layer) : Bool :=
+  ls.all fun l => l.features.all fun f => (gvalRings f.geom).all fun r => oriFloat r == oriInt r
 
-def sameFloatKind : PVal → PVal → Bool
-  | .f64 _, .f64 _ => true
-  | .f32 _, .f32 _ => true
-  | _, _ => false
+/-- an id of the quantifier ("non-negative integer") that `idWF` excludes: ≥ 2^53, where
+    `float64(id)` may round -/
+def hasBigId (ls : List Layer) : Bool :=
+  ls.any fun l => l.features.any fun f =>
+    match f.id with
+    | .int v => decide (v ≥ (2^53 : Int))
+    | .uint v => decide (v ≥ 2^53)
+    | _ => false
 
-/-- a layer holds a +0 and a −0 of the same Go float type: the value table, keyed by `==`,
-    keeps only the first of them -/
-def negZeroClash (ls : List Layer) : Bool :=
-  ls.any fun l =>
-    let vs := l.features.flatMap fun f => f.props.map (·.2)
-    vs.any fun a => isNegZero a && vs.any fun b => isPosZero b && sameFloatKind a b
+/-- exact value of a finite float32 given by its bit pattern -/
+def f32ToRat? (b : UInt32) : Option Rat :=
+  let n := b.toNat
+  let e := (n / 2^23) % 256
+  let m : Nat := n % 2^23
+  if e == 255 then none
+  else
+    let mag : Rat :=
+      if e == 0 then (Int.ofNat m : Rat) / ((2:Rat)^149)
+      else if e ≥ 150 then (Int.ofNat (2^23 + m) : Rat) * ((2:Rat)^(e - 150))
+      else (Int.ofNat (2^23 + m) : Rat) / ((2:Rat)^(150 - e))
+    some (if n / 2^31 == 1 then -mag else mag)
+
+/-- The conversions `widen` / `decodeTVal` / `convertID` share (`f32to64`, `i2f`: Lean's
+    `Float32.toFloat`, `Float.ofInt`) against their exact meaning, per value: widening a float32
+    keeps the rational value, ±Inf, the sign of zero, and (NaN) sign + payload; `float64(int)` is
+    exact up to 2^53.  A failure is a defect of the twin, reported as `diff`. -/
+def twinOK (v : PVal) : Bool :=
+  match v with
+  | .f32 b =>
+    let w := f32to64 b
+    let sgn : UInt64 := (b >>> 31).toUInt64
+    if f32IsNaN b then f64IsNaN w && (w >>> 63 == sgn) &&
+      (w &&& (0x0007ffffffffffff : UInt64) == (b &&& 0x003fffff).toUInt64 <<< (29 : UInt64)) &&
+      (w &&& (0x0008000000000000 : UInt64) != 0)
+    else match f32ToRat? b with
+      | none => w == (if sgn == 1 then (0xfff0000000000000 : UInt64) else 0x7ff0000000000000)
+      | some r => bitsToRat? w == some r && (w >>> 63 == sgn)
+  | .sint _ i => if i.natAbs ≤ 2^53 then bitsToInt? (i2f i) == some i else true
+  | .uint _ n => if n ≤ 2^53 then bitsToInt? (i2f n) == some (n : Int) else true
+  | _ => true
 
 def handleRT (inp out : Toks) : String :=
   match (do
@@ -239,12 +330,11 @@ def handleRT (inp out : Toks) : String :=
   | some raw =>
   match toLayers raw with
   | none => "skip coord-out-of-int32"
-  | some layers =>
+  | some (layers, frac) =>
   let secs := splitSemi out
   let sec (k : String) : Option Toks := (secs.find? fun s => s.head? == some k).map (·.drop 1)
   match sec "M", sec "D" with
   | some [mcls], some [d] =>
-    let det := d == "1"
     let implVT := (sec "VT").map join
     let implU := (sec "U").map join
     let implG := match (sec "G").map join with
@@ -255,29 +345,42 @@ def handleRT (inp out : Toks) : String :=
     let modelM := classOf mvt
     let modelVT := match mvt with | .ok t => some (showVT t) | _ => none
     let modelU := match mvt with | .ok t => some (showOutcome (unmarshalVTWith oriFloat t).1) | _ => none
-    let modelUExact := match mvt with | .ok t => some (showOutcome (unmarshalVT t)) | _ => none
     let agree := modelM == mcls && modelVT == implVT && modelU == implU && modelU == implG
     let modelStr := s!"M {modelM} ; VT {modelVT.getD "-"} ; U {modelU.getD "-"}"
-    let fin (s : String) : String := if s.startsWith "propfail" || agree then s else "diff " ++ modelStr
-    fin <|
-    if !det then "propfail deterministic" else
-    if mvtWF layers then
-      -- float property values are compared with float `==`: −0 = +0 (the value table is keyed by `==`)
-      let normZ (s : String) : String := s.replace "d:8000000000000000" "d:0000000000000000"
-      let want := normZ (showDLayers (expectLayers layers))
+    if d != "1" then (if d == "g" then "propfail deterministic gzipped" else "propfail deterministic") else
+    if !(layers.all fun l => (layerVals l).all twinOK) then "diff twin f32to64/i2f is not the exact conversion" else
+    -- the specification: nested collections stand for their members
+    let spec := specLayers layers
+    if !frac && mvtWF spec then
+      -- Bit-exact where the theorems are (`exactDomainZ`: a lone −0.0 comes back as −0.0); where a
+      -- layer holds +0 and −0 of one float type the value table (keyed by Go `==`) keeps the first,
+      -- and the values are compared with float `==`: −0 = +0 (stated in "partial").
+      let clash := !(spec.all fun l => noZeroClash (layerVals l))
+      let normZ (s : String) : String := if clash then s.replace "d:8000000000000000" "d:0000000000000000" else s
+      let want := normZ (showDLayers (expectLayers spec))
       let good := mcls == "ok" && implU.map normZ == some want && implG.map normZ == some want
       if good then
+        if !agree then "diff " ++ modelStr else
         (if layers.all (fun l => l.features.isEmpty) then "ok triv-empty"
-         else if negZeroClash layers then "ok wf negzero"
+         else if clash then "ok wf negzero"
+         else if (layerVals <$> layers).any (fun vs => vs.any isNegZero) then "ok wf lone-negzero"
          else if hasSingleColl layers then "ok wf coll1" else "ok wf")
       else
         let why := if mcls != "ok" then "marshal-" ++ mcls else if implU.map normZ != some want then "unmarshal" else "gzipped"
-        if hasMultiColl layers then "propfail collection-members " ++ why
+        -- A known class is named ONLY when the implementation does exactly what the model (which
+        -- has the three recorded defects built in) predicts; a failure the model does not
+        -- reproduce is never absorbed by a known label.
+        if !agree then s!"propfail roundtrip-unexplained {why} ; diff {modelStr}"
+        else if hasMultiColl layers then "propfail collection-members " ++ why
         else if (geomsOf layers).any (fun g => !geomNoDupClose g) then "propfail ring-reclose " ++ why
-        else if modelU != modelUExact then "propfail regroup-rounding " ++ why
+        else if !oriAgreeB layers then "propfail regroup-rounding " ++ why
         else "propfail roundtrip " ++ why
     else
-      s!"ok nonwf {mcls} {match implU with | some u => (u.splitOn " ").headD "-" | none => "-"}"
+      if !agree then "diff " ++ modelStr else
+      let cls := if frac then "nonwf-frac"
+        else if hasBigId layers && mvtWF (spec.map fun l => { l with features := l.features.map fun f => { f with id := .none } }) then "nonwf-bigid"
+        else "nonwf"
+      s!"ok {cls} {mcls} {match implU with | some u => (u.splitOn " ").headD "-" | none => "-"}"
   | _, _ => "bad output"
 
 /-! ### hostile tiles (C05) -/
@@ -400,7 +503,7 @@ def handleWire (inp out : Toks) : String :=
   | some raw =>
   match toLayers raw with
   | none => "skip coord-out-of-int32"
-  | some layers =>
+  | some (layers, frac) =>
   let secs := splitSemi out
   let sec (k : String) : Option Toks := (secs.find? fun s => s.head? == some k).map (·.drop 1)
   match sec "M", sec "D" with
@@ -430,12 +533,12 @@ def handleWire (inp out : Toks) : String :=
              let modelU := showOutcome (ProtoWire.unmarshalBytesWith oriFloat goB)
              if modelU != implU then s!"diff U {modelU}"
              else
-             let exact := mvtWF layers && exactDomain layers &&
-               showOutcome (ProtoWire.unmarshalBytes goB) == modelU
+             -- the hypotheses of `bytes_roundtrip_exact`
+             let exact := !frac && mvtWF layers && exactDomainZ layers && oriAgreeB layers
              if exact && implU != showDLayers (expectLayers layers) then "propfail bytes-roundtrip"
              else if goB.isEmpty then "ok triv-empty-tile"
              else if exact then s!"ok wire exact len{(Nat.log2 goB.length)}"
-             else if mvtWF layers then "ok wire wf"
+             else if !frac && mvtWF layers then "ok wire wf"
              else s!"ok wire nonwf {(implU.splitOn " ").headD "-"}"
        | _, _, _ => "bad output")
     | _ => s!"ok wire marshal-{mcls}"
@@ -456,13 +559,40 @@ def handleWireH (inp out : Toks) : String :=
       match ProtoWire.decodeTile data with
       | .panic w => s!"diff decodeTile panic {w}"
       | .err .nonUtf8 => "skip non-utf8-string"
-      | .err .geomTail => if implErr then s!"ok {len} geomtail err" else s!"ok {len} geomtail lenient"
-      | .err .wire => if implErr then s!"ok {len} wire-err" else "diff U err:wire"
+      -- an error comes out as ErrDataIsGZipped iff the data starts with the gzip magic
+      -- (`unmarshalTop`); the class of any other scanner error is not modelled
+      | .err .geomTail =>
+        if !implErr then s!"ok {len} geomtail lenient"
+        else if (implU == "err:gzipped") != dataIsGZipped data then s!"diff U {classOf (unmarshalTop data (.err .wire : R Unit))}"
+        else s!"ok {len} geomtail err"
+      | .err .wire =>
+        let want := classOf (unmarshalTop data (.err .wire : R Unit))
+        if !implErr then s!"diff U {want}"
+        else if (implU == "err:gzipped") != dataIsGZipped data then s!"diff U {want}"
+        else if want == "err:gzipped" then s!"ok {len} wire-err gzip-magic" else s!"ok {len} wire-err"
       | .ok _ =>
         let modelU := showOutcome (ProtoWire.unmarshalBytesWith oriFloat data)
-        if modelU == implU then s!"ok {len} scanned {(implU.splitOn " ").headD "-"}"
+        if modelU == implU then s!"ok {len} scanned {(implU.splitOn " ").headD "-"}{if dataIsGZipped data then " gzip-magic" else ""}"
         else s!"diff U {modelU}"
   | _, _ => "bad input"
+
+/-- `rawstr`: a layer name, a key and a string value given as raw bytes (possibly not UTF-8, which
+    a Lean `String` cannot hold, so there is no model side): the property clause alone — the three
+    byte strings come back unchanged, plain and gzipped, and the bytes are the same on every
+    marshal.  Compared on the hex tokens. -/
+def handleRawStr (inp out : Toks) : String :=
+  match inp, out with
+  | [n, k, v], [cls, n', k', v', g, d] =>
+    if cls.startsWith "panic" then "propfail panic rawstr"
+    else if d != "1" then "propfail deterministic rawstr"
+    else if cls != "ok" then s!"propfail rawstr {cls}"
+    else if n' != n || k' != k || v' != v then "propfail rawstr roundtrip"
+    else if g != "same" then "propfail rawstr gzipped"
+    else
+      let utf8 := (unH n).isSome && (unH k).isSome && (unH v).isSome
+      if utf8 then "ok rawstr utf8" else "ok rawstr non-utf8"
+  | _, cls :: _ => if cls.startsWith "panic" then "propfail panic rawstr" else "bad rawstr"
+  | _, _ => "bad rawstr"
 
 def handle (ts : Toks) : String :=
   match ts with
@@ -473,6 +603,7 @@ def handle (ts : Toks) : String :=
     | "hostile" => handleHostile inp out
     | "wire" => handleWire inp out
     | "wireh" => handleWireH inp out
+    | "rawstr" => handleRawStr inp out
     | _ => "bad op " ++ op
   | [] => "bad empty"
 
